@@ -6,6 +6,7 @@ import PasfmtModel.Proofs.PipelineC01
 import PasfmtModel.Proofs.PipelineC07
 import PasfmtModel.Model.Contracts
 import PasfmtModel.Proofs.WrapStageProps
+import PasfmtModel.Proofs.PipelineFullProps
 
 namespace Pasfmt.C07
 
@@ -114,6 +115,18 @@ theorem C07_format_any_search (cfg : Config) (O : Oracles) (solve : Nat → Nat 
     ∃ (out before after : Bytes), format cfg (O.withSolver solve) s = some out ∧
       out = before ++ ((raw.take b).drop a).flatMap (fun r => r.ws ++ r.content) ++ after :=
   C07_format cfg (O.withSolver solve) (wrapKeepsIgnored_of_solver O solve) s raw hl a b hab hb hmark hsafe
+
+/-- **C07 for the closed model of the whole formatter**: the stage with the search inside keeps ignored tokens
+    (`wrapKeepsIgnored_full`), so for the model's own parser result `po` a run of marked tokens is found in the output,
+    contiguously, with its scanned whitespace and text (same side condition on the safety net). -/
+theorem C07_format_full (cfg : Config) (alnum : Bytes → Bool) (po : ParserOut) (s : Bytes) (raw : List RawTok)
+    (hl : lex s = some raw) (a b : Nat) (hab : a ≤ b) (hb : b ≤ raw.length)
+    (hmark : ∀ i, a ≤ i → i < b → (preWrap (fullOracles alnum po) raw).1.getD i false = true)
+    (hsafe : safeRun (mbAfter false (((fullOracles alnum po).wrap cfg (preWrap (fullOracles alnum po) raw).2.1 (preWrap (fullOracles alnum po) raw).2.2).take a))
+      ((((fullOracles alnum po).wrap cfg (preWrap (fullOracles alnum po) raw).2.1 (preWrap (fullOracles alnum po) raw).2.2).take b).drop a) = true) :
+    ∃ (out before after : Bytes), format cfg (fullOracles alnum po) s = some out ∧
+      out = before ++ ((raw.take b).drop a).flatMap (fun r => r.ws ++ r.content) ++ after :=
+  C07_format cfg (fullOracles alnum po) (wrapKeepsIgnored_full alnum po) s raw hl a b hab hb hmark hsafe
 
 -- Tests (labelled as tests, not the unbounded claim): toggle spellings.
 -- '// pasfmt off'
